@@ -689,20 +689,32 @@ where
     }
 
     fn try_reallocate(&mut self, new_capacity: usize) -> Result<(), TryReserveError> {
+        let new_table = RawTable::try_with_capacity(new_capacity)?;
+        self.move_to_table(new_table);
+        Ok(())
+    }
+
+    fn move_to_table(&mut self, mut old_table: RawTable<Entry<K, V>>) {
         let hasher = make_hasher(&self.hash_builder);
-        let mut old_table = RawTable::try_with_capacity(new_capacity)?;
+
+        // Hashing runs user code which may panic. Do all of it before any
+        // entry is moved, so that a panic leaves the cache untouched.
+
+        let hashes = unsafe {
+            self.table.iter()
+                .map(|bucket| hasher(bucket.as_ref()))
+                .collect::<Vec<_>>()
+        };
         mem::swap(&mut self.table, &mut old_table);
 
-        for entry in old_table.into_iter() {
+        for (entry, hash) in old_table.into_iter().zip(hashes) {
             let mut prev_entry = entry.prev;
             let mut next_entry = entry.next;
-            let bucket = self.table.insert(hasher(&entry), entry, &hasher);
+            let bucket = self.table.insert(hash, entry, &hasher);
             let entry_ptr = EntryPtr::new(bucket.as_ptr());
             prev_entry.get_mut().next = entry_ptr;
             next_entry.get_mut().prev = entry_ptr;
         }
-
-        Ok(())
     }
 
     fn reallocate(&mut self, new_capacity: usize) {
